@@ -436,3 +436,144 @@ func c20ValidateLast(w *World, r *Report) {
 		r.Check(bad == "", "C20/VALIDATE-LAST", fmt.Sprintf("write#%d", i+1), w.InstrPos(wr), "the metadata written here is validated before the chart is returned", "metadata decoded here can reach the success return at "+bad+" without being validated: null list elements and invalid names survive loading")
 	}
 }
+
+// c20DecodePtr — C20/DECODE-PTR. A decoder handed the address of a pointer variable (`var p *T;
+// Unmarshal(data, &p)`) leaves p nil for an empty or `null` document and reports no error. Such a
+// pointer is dereferenced, or returned next to a nil error, only where it was tested non-nil.
+func isDecoderCall(cc *ssa.CallCommon) (dst ssa.Value, ok bool) {
+	f, _ := calleeOf(cc)
+	name := ""
+	if f != nil {
+		name = FuncName(origin(f))
+	} else if cc.IsInvoke() {
+		name = cc.Method.Name()
+	}
+	switch {
+	case strings.HasSuffix(name, "yaml.Unmarshal"), strings.HasSuffix(name, "yaml.UnmarshalStrict"), strings.HasSuffix(name, "json.Unmarshal"), strings.HasSuffix(name, "toml.Unmarshal"):
+		if len(cc.Args) >= 2 {
+			return cc.Args[1], true
+		}
+	case strings.HasSuffix(name, "Decoder).Decode"), name == "Decode":
+		if len(cc.Args) >= 1 {
+			return cc.Args[len(cc.Args)-1], true
+		}
+	}
+	return nil, false
+}
+
+// decodedPtrSlot: the local pointer variable whose address is the decoder's destination (nil if the
+// destination is anything else).
+func decodedPtrSlot(dst ssa.Value) *ssa.Alloc {
+	if mi, isMI := dst.(*ssa.MakeInterface); isMI {
+		dst = mi.X
+	}
+	slot, isAlloc := dst.(*ssa.Alloc)
+	if !isAlloc {
+		return nil
+	}
+	pt, isPtr := slot.Type().Underlying().(*types.Pointer)
+	if !isPtr {
+		return nil
+	}
+	if _, inner := pt.Elem().Underlying().(*types.Pointer); !inner {
+		return nil
+	}
+	return slot
+}
+
+func c20DecodePtr(w *World, r *Report) {
+	n := 0
+	seen := map[string]int{}
+	for _, fn := range w.HelmFuncs() {
+		if strings.HasSuffix(w.FileOf(fn), "_test.go") {
+			continue
+		}
+		for _, c := range callInstrs(fn) {
+			dst, ok := isDecoderCall(c.Common())
+			if !ok {
+				continue
+			}
+			n++
+			slot := decodedPtrSlot(dst)
+			if slot == nil {
+				continue
+			}
+			key := siteKey(Site{fn, c, posOf(c)})
+			seen[key]++
+			if seen[key] > 1 {
+				key = fmt.Sprintf("%s@%d", key, seen[key])
+			}
+			g := FullGraph(fn)
+			// every load of the slot; a later store of a fresh object makes the slot non-nil again (not followed: undecided)
+			var loads []*ssa.UnOp
+			otherStore := ""
+			for _, rf := range *slot.Referrers() {
+				switch x := rf.(type) {
+				case *ssa.UnOp:
+					if x.Op == token.MUL {
+						loads = append(loads, x)
+					}
+				case *ssa.Store:
+					if x.Addr == ssa.Value(slot) {
+						if cst, isC := x.Val.(*ssa.Const); isC && cst.IsNil() {
+							continue
+						}
+						if ex, _ := g.PathExists(posOf(c), posOf(x), Avoid{}); ex {
+							otherStore = w.InstrPos(x)
+						}
+					}
+				}
+			}
+			if otherStore != "" {
+				r.Unk("C20/DECODE-PTR", key, w.InstrPos(c), "the decoded pointer variable is assigned again at "+otherStore+" after decoding: not followed")
+				continue
+			}
+			var nonNil []Edge
+			for _, ld := range loads {
+				_, nn := nilTestEdges(ld)
+				nonNil = append(nonNil, nn...)
+			}
+			bad := ""
+			var errBad []Edge // edges on which the decoder reported an error: a nil pointer next to that error is fine
+			if e := errResult(c); e != nil {
+				_, errBad = nilTestEdges(e)
+			}
+			for _, ld := range loads {
+				var uses []ssa.Instruction
+				for a := range forwardAliases(ld) {
+					uses = append(uses, derefsOf(a)...)
+					if a.Referrers() == nil {
+						continue
+					}
+					for _, rf := range *a.Referrers() {
+						switch x := rf.(type) {
+						case *ssa.Return:
+							uses = append(uses, x)
+						case *ssa.Store:
+							if x.Val == a {
+								if _, local := x.Addr.(*ssa.Alloc); !local || true {
+									uses = append(uses, x) // handed on (result slot, field): the holder sees a nil
+								}
+							}
+						case ssa.CallInstruction:
+							for _, arg := range x.Common().Args {
+								if arg == a {
+									uses = append(uses, x)
+								}
+							}
+						case *ssa.MakeInterface:
+							uses = append(uses, x)
+						}
+					}
+				}
+				for _, u := range uses {
+					if ex, _ := g.PathExists(posOf(c), posOf(u), Avoid{}.withEdges(nonNil...).withEdges(errBad...)); ex {
+						bad = w.InstrPos(u)
+					}
+				}
+			}
+			r.Check(bad == "", "C20/DECODE-PTR", key, w.InstrPos(c), "the pointer filled by decoding into its address is used only where it was tested non-nil", "a pointer filled by decoding into its address (nil after an empty or null document, without an error) is used or handed on untested at "+bad)
+		}
+	}
+	r.Check(n >= 10, "C20/DECODE-PTR", "decoder-calls-seen", "-", fmt.Sprintf("%d decoder calls examined", n), fmt.Sprintf("only %d decoder calls recognised (expected at least 10): the matcher lost its anchors", n))
+}
